@@ -84,6 +84,24 @@ def provenance(rep, K):
             elif nm == 'previous_t':
                 n += 1
                 ok = cz(st.value) in ('TMIN', 'current_t', 'cbuf[z_mem+z_cur-1,sim]', 'cbuf[z_mem+z_cur-1,sim]ifz_cur>0elseTMIN')
+                if not ok:
+                    # the same entry addressed after z_cur was already moved in this block: offset + moves so far == -1
+                    import re as _re
+                    m = _re.fullmatch(r'cbuf\[z_mem\+z_cur([+-]\d+)?,sim\]', cz(st.value))
+                    blk = getattr(st, '_parent', None)
+                    body = getattr(blk, 'body', []) if blk is not None else []
+                    sibs = body if st in body else (getattr(blk, 'orelse', []) if blk is not None else [])
+                    if m and st in sibs:
+                        delta = 0
+                        for prev in sibs[:sibs.index(st)]:
+                            t = cz(prev)
+                            mm = _re.fullmatch(r'z_cur([+-])=(\d+)', t)
+                            if mm:
+                                delta += int(mm.group(2)) * (1 if mm.group(1) == '+' else -1)
+                            elif 'z_cur' in {n.id for n in ast.walk(prev) if isinstance(n, ast.Name) and isinstance(n.ctx, ast.Store)}:
+                                delta = None
+                                break
+                        ok = delta is not None and int(m.group(1) or 0) + delta == -1
                 rep.ob('C04.provenance', cz(st), ok)
                 if not ok:
                     rep.violate('C04.provenance', mod, f, st, 'previous_t must be TMIN, the edge just stored (current_t) or the last stored entry cbuf[z_mem + z_cur - 1, sim]', node=st)
